@@ -254,7 +254,7 @@ func TestVerifC15(t *testing.T) {
 		c15Part("in-uni-cli-l3", c15InUni(cli, 3, 6, 9)),
 		c15Part("in-bidi-cli-l2", c15InBidi(cli, 2, 7, 9)),
 		c15Part("in-bidi-srv-l3", c15InBidi(srv, 3, 5, 8)),
-		c15Part("rel-in-bidi-srv-l1", c15RelIn(srv, 1, c15KMaxData1, 10, 12)),
+		c15Part("rel-in-bidi-srv-l1", c15RelIn(srv, 1, c15KMaxData1, 11, 13)),
 		c15Part("rel-in-bidi-cli-l2", c15RelIn(cli, 2, c15KMaxData3, 7, 9)),
 		c15Part("rel-out-uni-cli", c15RelOut(cli, 1, true, c15KMaxData1, 10, 12)),
 		c15Part("rel-out-bidi-srv", c15RelOut(srv, 0, false, c15KMaxData3, 10, 11)),
